@@ -684,6 +684,19 @@ class ExpMat:
         raise U(f"exponents.{attr}", node)
 
 
+class RowEntryTest:
+    """row1 <op> row2 entry-wise (boolean vector of width D); only numpy.any / numpy.all are modelled"""
+
+    def __init__(self, a, b, f):
+        self.a, self.b, self.f = a, b, f
+
+    def some(self, ctx):
+        return z3.Not(ctx.forall_range(0, self.a.D, lambda d: z3.Not(self.f(expo(self.a.m, d), expo(self.b.m, d)))))
+
+    def every(self, ctx):
+        return ctx.forall_range(0, self.a.D, lambda d: self.f(expo(self.a.m, d), expo(self.b.m, d)))
+
+
 class EntryTest:
     """`exponents <op> constant`: boolean matrix; only numpy.any / numpy.all over every entry are modelled."""
 
@@ -722,6 +735,9 @@ class MonoRow:
         if isinstance(other, MonoRow) and op in ("Eq", "NotEq"):
             e = self.m == other.m
             return e if op == "Eq" else z3.Not(e)
+        if isinstance(other, MonoRow) and op in ("Lt", "LtE", "Gt", "GtE") and not reflected:
+            f = {"Lt": lambda a, b: a < b, "LtE": lambda a, b: a <= b, "Gt": lambda a, b: a > b, "GtE": lambda a, b: a >= b}[op]
+            return RowEntryTest(self, other, f)
         return NotImplemented
 
     def sx_getitem(self, ex, idx, node):
@@ -1318,7 +1334,7 @@ def install(reg):
             return z3.Not(mzero(a.m, a.D))
         if isinstance(a, BoolVec) and len(args) == 1 and not kw:
             return z3.Not(ex.ctx.forall_range(0, a.n, lambda t: z3.Not(a.at(t))))
-        if isinstance(a, EntryTest) and len(args) == 1 and not kw:
+        if isinstance(a, (EntryTest, RowEntryTest)) and len(args) == 1 and not kw:
             return a.some(ex.ctx)
         if isinstance(a, ExpMat) and (args[1:] == [-1] or kw.get("axis") == -1) and len(args) + len(kw) == 2:
             m = a
@@ -1385,6 +1401,12 @@ def install(reg):
             return DTypeV(ct(ds[0], ds[1]))
         raise U("numpy.common_type in this form", node)
 
+    @ax("numpy.abs")
+    def abs_(ex, args, kw, node):
+        if len(args) == 1 and isinstance(args[0], Arr) and not kw:
+            return elementwise(ex, lambda a: z3.If(_num(a) >= 0, _num(a), -_num(a)), [args[0]], "real", node, dtype=args[0].dtype)
+        raise U("numpy.abs of this value", node)
+
     @ax("numpy.where")
     def where_(ex, args, kw, node):
         if len(args) == 3 and not kw and isinstance(args[0], Arr) and args[0].kind == "bool" and all(
@@ -1433,7 +1455,7 @@ def install(reg):
         if isinstance(a, RowsAllZero) and (args[1:] == [-1] or kw.get("axis") == -1):
             m = a.mat
             return BoolVec(m.n, lambda t: mzero(m.row(t), m.D))
-        if isinstance(a, EntryTest) and len(args) == 1 and not kw:
+        if isinstance(a, (EntryTest, RowEntryTest)) and len(args) == 1 and not kw:
             return a.every(ex.ctx)
         if isinstance(a, Arr) and len(args) == 1 and not kw:
             return ex.ctx.forall_idx(lambda i: (a.elem(i) != 0) if a.kind != "bool" else a.elem(i), a.shape)
